@@ -118,8 +118,25 @@ def run(ctx):
         ctx.check(norm(w.ast.value) == "trial_id", "R12.1", f.short, "cache-written-with-this-trial", message=f"best_trial_id set to `{norm(w.ast.value)}`", how="trial_id")
     # the tested trial is the one being cached
     tdef = [n for n in own_nodes(f.node) if isinstance(n, ast.Assign) and norm(n.targets[0]) == "trial"]
-    ctx.check(bool(tdef) and norm(tdef[0].value) == "self._get_trial(trial_id)", "R12.1", f.short, "tests-this-trial",
-              message="the COMPLETE test is not on the trial being cached", how="trial = self._get_trial(trial_id)")
+    this_trial = bool(tdef) and norm(tdef[0].value) == "self._get_trial(trial_id)"
+    if not tdef and "trial" in f.params():
+        # the caller hands the trial over instead of the maintainer re-reading it: every call site passes the very
+        # object it has just published under trial_id (`self._set_trial(trial_id, x)` / `<study>.trials.append(x)`)
+        idx = f.params().index("trial") - 1
+        this_trial = True
+        n_sites = 0
+        for m2 in im.methods.values():
+            for c2 in own_nodes(m2.node):
+                if isinstance(c2, ast.Call) and self_attr(c2.func) == f.name:
+                    n_sites += 1
+                    a2 = kwarg(c2, "trial", idx)
+                    pubs = [x for x in own_nodes(m2.node) if isinstance(x, ast.Call) and a2 is not None and (
+                        (self_attr(x.func) == "_set_trial" and len(x.args) == 2 and norm(x.args[1]) == norm(a2)) or
+                        (isinstance(x.func, ast.Attribute) and x.func.attr == "append" and norm(x.func.value).endswith(".trials") and x.args and norm(x.args[0]) == norm(a2)))]
+                    this_trial = this_trial and isinstance(a2, ast.Name) and bool(pubs)
+        this_trial = this_trial and n_sites > 0
+    ctx.check(this_trial, "R12.1", f.short, "tests-this-trial",
+              message="the COMPLETE test is not on the trial being cached", how="trial = self._get_trial(trial_id), or the published object handed over by every caller")
     # SQL
     for q in (TM + ".find_max_value_trial_id", TM + ".find_min_value_trial_id"):
         f = p.func(q)
@@ -191,7 +208,8 @@ def run(ctx):
         if a is None:
             return None
         l, op, r = a
-        if "best_trial_id" in l and "trial_id).value" in r and "best_trial_id" not in r:
+        new_side = lambda t: ("trial_id).value" in t or t == "trial.value") and "best_trial_id" not in t  # noqa: E731
+        if "best_trial_id" in l and new_side(r):
             return "replace-when-new-larger" if op in (ast.Lt, ast.LtE) else ("replace-when-new-smaller" if op in (ast.Gt, ast.GtE) else None)
         if "best_trial_id" in r and "best_trial_id" not in l:
             return "replace-when-new-larger" if op in (ast.Gt, ast.GtE) else ("replace-when-new-smaller" if op in (ast.Lt, ast.LtE) else None)
@@ -300,7 +318,7 @@ def run(ctx):
     for n in upd:
         for c in n.calls():
             if self_attr(c.func) == UPD:
-                ctx.check([norm(a) for a in c.args] == ["trial_id", "study_id"], "R12.4", f.short, "update-args", message="cache updated for another trial/study", how="(trial_id, study_id)")
+                ctx.check([norm(a) for a in c.args][:2] == ["trial_id", "study_id"], "R12.4", f.short, "update-args", message="cache updated for another trial/study", how="(trial_id, study_id, ...)")
     f = im.methods["get_best_trial"]
     g = CFG(f.node, name=f.qualname)
     raises = {norm(n.ast.exc.func if isinstance(n.ast.exc, ast.Call) else n.ast.exc): n for n in g.stmt_nodes() if n.kind == "stmt" and isinstance(n.ast, ast.Raise) and n.ast.exc is not None}
@@ -388,9 +406,11 @@ def run(ctx):
     if isinstance(e, ast.Call) and dotted(e.func) == "any" and e.args and isinstance(e.args[0], (ast.GeneratorExp, ast.ListComp)):
         comp = e.args[0]
         gen = comp.generators[0]
-        it = norm(resolve(gen.iter, bdefs))
+        itn = resolve(gen.iter, bdefs)
+        it = norm(itn)
         elt = comp.elt
-        all_trials = (it.startswith("self.get_trials(") or it.startswith("self._get_trials(") or it == "self.trials") and "states" not in it
+        unfiltered = not (isinstance(itn, ast.Call) and kwarg(itn, "states", 1) is not None and not (isinstance(kwarg(itn, "states", 1), ast.Constant) and kwarg(itn, "states", 1).value is None))
+        all_trials = (it.startswith("self.get_trials(") or it.startswith("self._get_trials(") or it == "self.trials") and unfiltered
         member = isinstance(elt, ast.Compare) and len(elt.ops) == 1 and isinstance(elt.ops[0], ast.In) and "_CONSTRAINTS_KEY" in norm(elt.left) \
             and norm(elt.comparators[0]).endswith(".system_attrs") and not gen.ifs and len(comp.generators) == 1
         ok = all_trials and member
